@@ -186,9 +186,7 @@ func RunIface(ic *IfaceCase, verbose bool) (out *IfaceOutcome) {
 					d.Context = "Finalise"
 				}
 				setDiv(step, d)
-				if !d.Diag {
-					return false
-				}
+				return false
 			}
 		}
 		h.endTx()
@@ -210,9 +208,7 @@ func RunIface(ic *IfaceCase, verbose bool) (out *IfaceOutcome) {
 				d.Context = "block-commit"
 			}
 			setDiv(step, d)
-			if !d.Diag {
-				return false
-			}
+			return false
 		}
 		return true
 	}
@@ -407,6 +403,21 @@ func RunIface(ic *IfaceCase, verbose bool) (out *IfaceOutcome) {
 			out.Nontrivial = true
 		}
 		if retA != retR {
+			switch op.Op {
+			case "Exist", "GetCodeHash", "Suicide", "HasSuicided":
+				// existent-but-empty vs. non-existent: go-ethereum itself keeps
+				// an empty object alive when it is re-created after a deletion
+				// without any journalled change; not observable through the
+				// EVM after EIP-161 and not arbitrated by the property text
+				if emptyBoth := func() (b bool) {
+					defer func() { recover() }()
+					return ad.Empty(a) && rf.Empty(a)
+				}(); emptyBoth {
+					setDiv(i, &Divergence{Diag: true, Rule: "return-value", Context: op.Op, Trait: "existence-of-empty-account",
+						What: fmt.Sprintf("op %d %s(%s) returned adapter=%q reference=%q while the account is empty on both sides", i, op.Op, a.Hex(), retA, retR)})
+					return out
+				}
+			}
 			fb := op.Op
 			if h.RevertedThisTx {
 				fb = op.Op + "-after-revert"
